@@ -48,42 +48,48 @@ def prove(ctx, claim, timeout_ms=20000, with_pc="auto", extra=()):
     """Try to prove `claim` under ctx.pre + ctx.axioms (+ ctx.pc).
     Returns dict(status=proved|refuted|unknown, model, t, used_pc)."""
     t0 = time.time()
-    tries = [False, True] if with_pc == "auto" else [bool(with_pc)]
-    if not ctx.pc:
-        tries = [False]
+    # attempt levels: 0 = claim alone (pure identity), 1 = + pre/axioms, 2 = + path condition
+    levels = [0, 1, 2] if with_pc == "auto" else ([2] if with_pc else [1])
+    if not ctx.pc and 2 in levels and len(levels) > 1:
+        levels.remove(2)
     last = None
-    budget = timeout_ms
-    for use_pc in tries:
+    if len(levels) > 1 and 0 in levels and ctx.axioms:
+        # a claim that mentions fresh (axiom-defined) variables cannot be a pure identity
+        if any("!" in n for n in free_vars([claim])):
+            levels.remove(0)
+    for k, lvl in enumerate(levels):
+        final = (k == len(levels) - 1)
         s = z3.Solver()
-        # first attempt without the path condition gets a third of the budget
-        tmo = budget if (use_pc or len(tries) == 1) else max(1000, budget // 3)
+        tmo = timeout_ms if final else (min(3000, timeout_ms) if lvl == 0 else max(1000, timeout_ms // 3))
         s.set("timeout", int(tmo))
-        for f in ctx.pre:
-            s.add(f)
-        for f in ctx.axioms:
-            s.add(f)
-        if use_pc:
+        if lvl >= 1:
+            for f in ctx.pre:
+                s.add(f)
+            for f in ctx.axioms:
+                s.add(f)
+        if lvl >= 2:
             for f in ctx.pc:
                 s.add(f)
-        for f in extra:
-            s.add(f)
+        if lvl >= 1:
+            for f in extra:
+                s.add(f)
         s.add(z3.Not(claim))
         r = s.check()
         ctx.queries += 1
         if r == z3.unsat:
             dt = time.time() - t0
             ctx.solver_time += dt
-            return dict(status="proved", model=None, t=dt, used_pc=use_pc)
+            return dict(status="proved", model=None, t=dt, used_pc=(lvl >= 2), level=lvl)
         if r == z3.sat:
-            if use_pc or len(tries) == 1:
+            if final:
                 try:
                     md = model_to_dict(s.model())
                 except Exception as e:  # pragma: no cover
                     md = {"_error": str(e)}
                 dt = time.time() - t0
                 ctx.solver_time += dt
-                return dict(status="refuted", model=md, t=dt, used_pc=use_pc)
-            last = "sat-without-pc"
+                return dict(status="refuted", model=md, t=dt, used_pc=(lvl >= 2), level=lvl)
+            last = f"sat-at-level-{lvl}"
         else:
             last = "unknown:" + s.reason_unknown()
     dt = time.time() - t0
